@@ -21,6 +21,11 @@ def streams(gen):
             ("unknown-sub+error", [cp["unknown-sub"], cp["error"]])]
 
 
+def _command(gen):
+    from . import sockcommon
+    return sockcommon.catalogue(gen)[0][0][1]
+
+
 def deliver(gen, raw, cuts, modes):
     """Feed raw cut at ``cuts``; modes[i] True = run to quiescence after segment i, False = no turn."""
     w = c06.RxWorld(gen)
@@ -30,6 +35,10 @@ def deliver(gen, raw, cuts, modes):
         t.peer_send(raw[pos:c])
         pos = c
         if i >= len(modes) or modes[i]:
+            w.loop.settle()
+        if i < len(modes) and modes[i] == "send":
+            # other tasks of the client run between two segments: here one that transmits a command
+            w.spawn(w.sock.send(_command(gen), w.policy))
             w.loop.settle()
     w.loop.settle()
     got = [(h.to_address, h.from_address, h.packet_id, h.message_id, h.message_length, repr(libview.view(gen, m))) for h, m in w.got]
@@ -55,7 +64,7 @@ def run_stream(job):
             k += 1
             if k % nshards != shard:
                 continue
-            mode_sets = itertools.product([True, False], repeat=ncut) if both_modes else [(True,) * ncut]
+            mode_sets = itertools.product([True, False, "send"], repeat=ncut) if both_modes else [(True,) * ncut, ("send",) * ncut]
             for modes in mode_sets:
                 got, nconn, rep = deliver(gen, raw, cuts, modes)
                 n += 1
@@ -80,7 +89,7 @@ def run(tier, seed, part=None):
     chk.trusted_base = ["pvmc.ref.framing", "pvmc.vloop / pvmc.simnet (data_received per segment, as a selector callback)",
                         "pvmc.libview (to compare delivered messages between runs)"]
     chk.assumptions = ["streams of 1-3 frames per generation incl. an empty payload and a zero-record status",
-                       "between two segments either no loop turn or run to quiescence"]
+                       "between two segments: no loop turn, run to quiescence, or run to quiescence and let the client transmit a command"]
     nsh = 16
     jobs = []
     for gen in (4, 5):
